@@ -1,4 +1,4 @@
-FIX_COMMITS = ['81ddff2', '385433c', 'cc971f4', 'bbe6c99', 'bc82b1c', '737bbcb', '381eb2a', 'f3c4e1a', '36238bb', '91307a4', '71b6bdf', '4a011ec', '029d212']
+FIX_COMMITS = ['81ddff2', '385433c', 'cc971f4', 'bbe6c99', 'bc82b1c', '737bbcb', '381eb2a', 'f3c4e1a', '36238bb', '91307a4', '71b6bdf', '4a011ec', '029d212', '06a4570']
 NOTES = 'Contract-based deductive verification of the real code: see DESIGN.md. exit 2 of a check means undecided (lost anchor / unsupported construct / resource limit), never an alarm.'
 CHECKS = {
     'C11': {
